@@ -27,7 +27,7 @@ RULE = ("cases: (permutation, format, column variant); executions: one call per 
         "(case, function, selector, form) with a non-identity permutation and at least one fit kept")
 ASSUMPTIONS = ["package self-consistent: convolved files and parameter table share the row order", "model names unique"]
 REQUIRED_CLASSES = ['keeps-none', 'keeps-one', 'keeps-some', 'keeps-all', 'form-file', 'form-object', 'form-list', 'additional-1', 'additional-2', 'nan-column', 'four-columns',
-                    'write_parameters', 'write_parameter_ranges', 'extract_parameters', 'filter_table', 'plot-params-table', 'permuted', 'parameters-gz']
+                    'write_parameters', 'write_parameter_ranges', 'extract_parameters', 'filter_table', 'plot-params-table', 'permuted', 'parameters-gz', 'parameter-file-rewritten']
 TIMEOUT = {'quick': 600, 'thorough': 3000}
 
 
@@ -79,8 +79,9 @@ def run_case(ctx, case, rec, d):
         rec.cls('nan-column')
     if case['n_cols'] == 4:
         rec.cls('four-columns')
+    # two additional parameters are inserted in non-alphabetical order (columns follow the dictionary's order)
     adds = [{}, {'ADD1': {nm: 100.0 + 3 * i for i, nm in enumerate(names)}},
-            {'ADD1': {nm: 100.0 + 3 * i for i, nm in enumerate(names)}, 'ADD2': {nm: 0.001 * (i + 1) for i, nm in enumerate(names)}}]
+            {'ZETA': {nm: 100.0 + 3 * i for i, nm in enumerate(names)}, 'ALPHA': {nm: 0.001 * (i + 1) for i, nm in enumerate(names)}}]
     cfg = (tuple(perm), case['fmt'], case['n_cols'], case['nan'])
     rec.state(cfg)
     sels = _selectors(np.asarray(base_infos[0].chi2, float), int(base_infos[0].source.n_data))
@@ -271,6 +272,27 @@ def run_case(ctx, case, rec, d):
                             if not same:
                                 rec.violation('filter_table|rows', sub, {'got': got, 'expected': want})
     rec.trace()
+    # ---- the package's parameter file is replaced by one with other values (same models): listings must follow the file
+    # as it is now, not as it was when the directory was first read
+    from ref import pkgwriter
+    new_cols = {c: np.array([pardict[nm][ci] for nm in pk['order_names']]) * 3.0 + 1.0 for ci, c in enumerate(colnames)}
+    for fpath in (os.path.join(md, 'parameters.fits'), os.path.join(md, 'parameters.fits.gz')):
+        if os.path.exists(fpath):
+            os.remove(fpath)
+    pkgwriter.write_parameters(md, pk['order_names'], {c: np.where(np.isnan(v), 7.0, v) for c, v in new_cols.items()}, gz=case.get('par_gz', False))
+    newdict = {nm: [float(np.where(np.isnan(new_cols[c][i]), 7.0, new_cols[c][i])) for c in colnames] for i, nm in enumerate(pk['order_names'])}
+    out = os.path.join(d, 'wp_rewritten.txt')
+    sel = ('N', 2)
+    if _guard(rec, 'write_parameters', {'rewritten': True}, lambda: sedfitter.write_parameters(path, out, select_format=sel)):
+        header, parsed = pc.parse_write_parameters(out)
+        rec.ev()
+        rec.trans()
+        rec.cls('parameter-file-rewritten')
+        for blk in parsed:
+            for r in blk['rows']:
+                if not all(pc.close_e(a, b) for a, b in zip(r['pars'], newdict[r['model']])):
+                    rec.violation('write_parameters|stale-parameter-file', {'rewritten': True}, {'problem': 'listing shows %r for %s, the parameter file now says %r (it said %r before it was rewritten)' % (r['pars'], r['model'], newdict[r['model']], pardict[r['model']])})
+                    break
     # ---- the table handed to the parameter plots
     if case['plots']:
         captured = []
@@ -283,6 +305,7 @@ def run_case(ctx, case, rec, d):
         FitInfo.filter_table = spy
         try:
             sel = sels[6]
+            pardict = newdict
             for fn, kw in ((sedfitter.plot_params_1d, {'parameter': colnames[0], 'log_x': False}),
                            (sedfitter.plot_params_2d, {'parameter_x': colnames[0], 'parameter_y': colnames[-1] if not case['nan'] else colnames[0], 'log_x': False, 'log_y': False})):
                 del captured[:]
